@@ -88,9 +88,9 @@ theorem olrun_append (size : Nat) : ∀ (a b : List OLabel) (ls ls1 : OState), o
   | cons x a ih =>
     intro b ls ls1 h
     simp only [olrun, List.cons_append] at h ⊢
-    split at h
-    · rename_i ls' h'; simp only [h']; exact ih _ _ _ h
-    · simp at h
+    cases hs : olstep size ls x with
+    | none => simp [hs] at h
+    | some ls' => simp only [hs] at h ⊢; exact ih _ _ _ h
 
 /-- the owner labels of L2 with the values they observe in `s` -/
 def obsO (t : Nat) (s : State) : Label → Option OLabel
@@ -105,7 +105,7 @@ theorem oCall_proj {c : Cfg} {s s' : State} {t : Nat} {f p : BitVec 64} (st : st
     olstep c.size (oproj t s) (.call f p (s.tail t)) = some (oproj t s') := by
   simp only [step] at st
   (repeat' split at st) <;> simp only [Option.some.injEq, reduceCtorEq] at st <;> subst st <;>
-    simp_all [olstep, oproj, oEntry, tick, mkEntry, upd]
+    simp_all [olstep, oproj, oEntry, tick, mkEntry, upd] <;> (try (intros; omega))
 
 theorem oPostFlush_proj {c : Cfg} {s s' : State} {t : Nat} (st : step c s (.oPostFlush t) = some s') :
     olstep c.size (oproj t s) (.postFlush (s.tail t)) = some (oproj t s') := by
@@ -149,28 +149,51 @@ def guardO (t : Nat) (s : State) : OLabel → Prop
   | .mb => s.bq t = [] ∧ s.bh t = none
   | _ => True
 
+theorem oCall_enabled (c : Cfg) (s : State) (t : Nat) (f p : BitVec 64) :
+    (step c s (.oCall t f p)).isSome ↔
+      ((olstep c.size (oproj t s) (.call f p (s.tail t))).isSome ∧ guardO t s (.call f p (s.tail t))) := by
+  simp only [step, olstep, oproj, guardO]
+  by_cases h1 : s.opc t = .idle <;> by_cases h2 : s.lock = some t <;> by_cases h3 : s.abort = false <;>
+    simp [h1, h2, h3] <;> (repeat' split) <;> simp
+
+theorem oPostFlush_enabled (c : Cfg) (s : State) (t : Nat) :
+    (step c s (.oPostFlush t)).isSome ↔
+      ((olstep c.size (oproj t s) (.postFlush (s.tail t))).isSome ∧ guardO t s (.postFlush (s.tail t))) := by
+  simp only [step, olstep, oproj, guardO]
+  by_cases h1 : s.opc t = .flushed <;> by_cases h3 : s.abort = false <;>
+    simp [h1, h3] <;> (repeat' split) <;> simp
+
+theorem oStQ_enabled (c : Cfg) (s : State) (t : Nat) :
+    (step c s (.oStQ t)).isSome ↔
+      (olstep c.size (oproj t s) (.stQ (s.wlen t) ((s.pendW t).headD 0#64))).isSome := by
+  simp only [step, olstep, oproj]
+  by_cases h1 : s.opc t = .stq <;> simp [h1]
+  cases s.pendW t <;> simp
+
+theorem oStHead_enabled (c : Cfg) (s : State) (t : Nat) :
+    (step c s (.oStHead t)).isSome ↔ (olstep c.size (oproj t s) (.stHead (s.wlen t))).isSome := by
+  simp only [step, olstep, oproj]
+  by_cases h1 : s.opc t = .stq <;> by_cases h2 : s.pendW t = [] <;> simp [h1, h2]
+
+theorem oMb_enabled (c : Cfg) (s : State) (t : Nat) :
+    (step c s (.oMb t)).isSome ↔ ((olstep c.size (oproj t s) .mb).isSome ∧ guardO t s .mb) := by
+  simp only [step, olstep, oproj, guardO]
+  by_cases h1 : s.opc t = .mb <;> by_cases h2 : s.bq t = [] <;> by_cases h3 : s.bh t = none <;> simp [h1, h2, h3]
+
 /-- **enabledness (owner)**: the L2 step is enabled iff the local step is and the global guard holds -/
 theorem owner_enabled {c : Cfg} {s : State} {t : Nat} {l : Label} {ll : OLabel} (ho : obsO t s l = some ll) :
     (step c s l).isSome ↔ ((olstep c.size (oproj t s) ll).isSome ∧ guardO t s ll) := by
   cases l <;> simp only [obsO, reduceCtorEq] at ho
   all_goals (split at ho <;> simp only [Option.some.injEq, reduceCtorEq] at ho; subst ho; rename_i h; subst h)
-  · simp only [step, olstep, oproj, guardO]
-    by_cases h1 : s.opc _ = .idle <;> by_cases h2 : s.lock = some _ <;> by_cases h3 : s.abort = false <;>
-      simp [h1, h2, h3] <;> (repeat' split) <;> simp
-  · simp only [step, olstep, oproj, guardO]
-    by_cases h1 : s.opc _ = .flushed <;> by_cases h3 : s.abort = false <;>
-      simp [h1, h3] <;> (repeat' split) <;> simp
-  · simp only [step, olstep, oproj, guardO]
-    by_cases h1 : s.opc _ = .stq <;> simp [h1]
-    cases s.pendW _ <;> simp
-  · simp only [step, olstep, oproj, guardO]
-    by_cases h1 : s.opc _ = .stq <;> by_cases h2 : s.pendW _ = [] <;> simp [h1, h2]
-  · simp only [step, olstep, oproj, guardO]
-    by_cases h1 : s.opc _ = .mb <;> by_cases h2 : s.bq _ = [] <;> by_cases h3 : s.bh _ = none <;> simp [h1, h2, h3]
+  · exact oCall_enabled c s _ _ _
+  · exact oPostFlush_enabled c s _
+  · simpa [guardO] using oStQ_enabled c s _
+  · simpa [guardO] using oStHead_enabled c s _
+  · exact oMb_enabled c s _
 
 /-- labels that are steps of owner `t` itself -/
 def isOwnerLabel (t : Nat) : Label → Bool
-  | .oCall t' _ _ | .oPostFlush t' | .oStQ t' | .oStHead t' | .oMb t' => t' == t
+  | .oCall t' _ _ | .oPostFlush t' | .oStQ t' | .oStHead t' | .oMb t' => t == t'
   | _ => false
 
 /-- **frame lemma (owner)**: every other label – owner steps of other threads, store-buffer commits (also `flushQ t`,
@@ -188,6 +211,149 @@ theorem unlock_oproj {c : Cfg} {s s' : State} {t : Nat} {l : Label} (hl : l = .r
     oproj t s' = if s.lock = some t ∧ s.opc t = .full then { oproj t s with opc := .flushed } else oproj t s := by
   rcases hl with rfl | rfl <;> simp only [step] at st <;>
     (repeat' split at st) <;> (try simp only [Option.some.injEq, reduceCtorEq] at st) <;> (try subst st) <;>
-    (try contradiction) <;> simp_all [oproj, tick, unlockBy] <;> (split <;> simp_all)
+    (try contradiction) <;> simp_all [oproj, tick, unlockBy] <;> (try (split <;> simp_all)) <;>
+    (try (intro e; subst e; simp_all))
+
+/-! ## runner (inside `rcu_defer_barrier_queue`) -/
+
+open UrcuVerif.Defer (isFct clrFct fctMark) in
+structure RState where
+  rpc : RPc
+  cur : Nat
+  ri : Nat
+  rit : RIt
+  snap : Nat          -- `head` parameter of the call (snapshot of the queue being run)
+  lastOut : BitVec 64 -- `last_fct_out` of the queue being run
+  deriving DecidableEq, Repr
+
+def rproj (s : State) : RState := ⟨s.rpc, s.cur, s.ri, s.rit, s.snap s.cur, s.lastOut s.cur⟩
+
+inductive RLabel
+  | begin (t T H : Nat) (lo : BitVec 64)
+  | ld (i : Nat) (w : BitVec 64)
+  | invoke (f p : BitVec 64)
+  | fin (i : Nat)
+  deriving DecidableEq, Repr
+
+open UrcuVerif.Defer (isFct clrFct fctMark) in
+def rlstep (ls : RState) (l : RLabel) : Option RState :=
+  match l with
+  | .begin t T H lo => if ls.rpc = .run then some ⟨.iter, t, T, .top, H, lo⟩ else none
+  | .ld i w =>
+    if ls.rpc = .iter ∧ i = ls.ri then
+      match ls.rit with
+      | .top =>
+        if ls.ri ≠ ls.snap then
+          some { ls with ri := ls.ri + 1,
+                         rit := if isFct w then .one w else if w == fctMark then .one w else .ready ls.lastOut w }
+        else none
+      | .one w0 => some { ls with ri := ls.ri + 1, rit := if isFct w0 then .ready (clrFct w0) w else .two w0 w }
+      | .two _ w1 => some { ls with ri := ls.ri + 1, rit := .ready w1 w }
+      | .ready _ _ => none
+    else none
+  | .invoke f p =>
+    if ls.rpc = .iter ∧ ls.rit = .ready f p then some { ls with lastOut := f, rit := .top } else none
+  | .fin i =>
+    if ls.rpc = .iter ∧ ls.rit = .top ∧ ls.ri = ls.snap ∧ i = ls.ri then some { ls with rpc := .run } else none
+
+def rlrun : RState → List RLabel → Option RState
+  | ls, [] => some ls
+  | ls, l :: r => match rlstep ls l with
+    | some ls' => rlrun ls' r
+    | none => none
+
+theorem rlrun_append : ∀ (a b : List RLabel) (ls ls1 : RState), rlrun ls a = some ls1 →
+    rlrun ls (a ++ b) = rlrun ls1 b := by
+  intro a
+  induction a with
+  | nil => intro b ls ls1 h; simp [rlrun] at h; subst h; rfl
+  | cons x a ih =>
+    intro b ls ls1 h
+    simp only [rlrun, List.cons_append] at h ⊢
+    cases hs : rlstep ls x with
+    | none => simp [hs] at h
+    | some ls' => simp only [hs] at h ⊢; exact ih _ _ _ h
+
+/-- the runner labels of L2 with the values they observe in `s` -/
+def obsR (c : Cfg) (s : State) : Label → Option RLabel
+  | .rBegin => match s.todo with
+    | t :: _ => some (.begin t (s.tail t) (s.snap t) (s.lastOut t))
+    | [] => none
+  | .rLd => some (.ld s.ri (rget c (s.mq s.cur) s.ri))
+  | .rInvoke => match s.rit with
+    | .ready f p => some (.invoke f p)
+    | _ => none
+  | .rEnd => some (.fin s.ri)
+  | _ => none
+
+/-- **projection lemma (runner)**, for the configuration of the code (`tailLate = true`) -/
+theorem runner_proj {c : Cfg} (hc : c.tailLate = true) {s s' : State} {l : Label} {ll : RLabel}
+    (ho : obsR c s l = some ll) (st : step c s l = some s') : rlstep (rproj s) ll = some (rproj s') := by
+  cases l <;> simp only [obsR, reduceCtorEq] at ho
+  · -- rBegin
+    simp only [step] at st
+    (repeat' split at st) <;> (try simp only [Option.some.injEq, reduceCtorEq] at st) <;> (try subst st) <;>
+      (try contradiction) <;> simp_all [rlstep, rproj, tick] <;> (try (subst ho; simp_all [rlstep]))
+  · -- rLd
+    simp only [Option.some.injEq] at ho; subst ho
+    simp only [step] at st
+    (repeat' split at st) <;> (try simp only [Option.some.injEq, reduceCtorEq] at st) <;> (try subst st) <;>
+      (try contradiction) <;> simp_all [rlstep, rproj, tick]
+  · -- rInvoke
+    simp only [step] at st
+    (repeat' split at st) <;> (try simp only [Option.some.injEq, reduceCtorEq] at st) <;> (try subst st) <;>
+      (try contradiction) <;> simp_all [rlstep, rproj, tick, upd] <;> (try (subst ho; simp_all [rlstep]))
+  · -- rEnd
+    simp only [Option.some.injEq] at ho; subst ho
+    simp only [step] at st
+    (repeat' split at st) <;> (try simp only [Option.some.injEq, reduceCtorEq] at st) <;> (try subst st) <;>
+      (try contradiction) <;> simp_all [rlstep, rproj, tick]
+
+/-- the global part of the guard of a runner label -/
+def guardR (s : State) : RLabel → Prop
+  | .fin _ => s.lock.isSome ∧ s.tpend = none
+  | _ => s.lock.isSome
+
+/-- **enabledness (runner)** -/
+theorem runner_enabled {c : Cfg} (hc : c.tailLate = true) {s : State} {l : Label} {ll : RLabel}
+    (ho : obsR c s l = some ll) : (step c s l).isSome ↔ ((rlstep (rproj s) ll).isSome ∧ guardR s ll) := by
+  cases l <;> simp only [obsR, reduceCtorEq] at ho
+  · simp only [step]
+    split at ho
+    · simp only [Option.some.injEq] at ho; subst ho
+      rename_i t r htodo
+      simp only [htodo, rlstep, rproj, guardR, hc]
+      by_cases h1 : s.lock.isSome = true <;> by_cases h2 : s.rpc = .run <;> simp [h1, h2]
+    · simp at ho
+  · simp only [Option.some.injEq] at ho; subst ho
+    simp only [step, rlstep, rproj, guardR]
+    by_cases h1 : s.lock.isSome = true <;> by_cases h2 : s.rpc = .iter <;> simp [h1, h2]
+    cases s.rit <;> simp <;> (try (split <;> simp))
+  · simp only [step]
+    split at ho
+    · simp only [Option.some.injEq] at ho; subst ho
+      rename_i f p hrit
+      simp only [hrit, rlstep, rproj, guardR]
+      by_cases h1 : s.lock.isSome = true <;> by_cases h2 : s.rpc = .iter <;> simp [h1, h2]
+    · simp at ho
+  · simp only [Option.some.injEq] at ho; subst ho
+    simp only [step, rlstep, rproj, guardR, hc]
+    by_cases h1 : s.lock.isSome = true <;> by_cases h2 : s.rpc = .iter <;> by_cases h3 : s.rit = .top <;>
+      by_cases h4 : s.ri = s.snap s.cur <;> by_cases h5 : s.tpend = none <;> simp [h1, h2, h3, h4, h5]
+
+/-- labels that leave the runner's projection alone: every owner step, store-buffer commits, `oRealloc`, readers.  (The
+runner's own control labels `rLock`, `rSnap`, `rSkip`, `rGpCall`, `rGp`, `rUnlock` – the callers of
+`rcu_defer_barrier_queue` – are not part of the function and do change `rpc` / `snap`.) -/
+def isRFrame : Label → Bool
+  | .oCall .. | .oPostFlush _ | .oStQ _ | .oStHead _ | .oMb _ | .flushQ _ | .flushH _ | .oRealloc .. | .flushT
+  | .rdLock _ | .rdUnlock _ => true
+  | _ => false
+
+/-- **frame lemma (runner)** -/
+theorem rproj_frame {c : Cfg} {s s' : State} {l : Label} (hl : isRFrame l = true) (st : step c s l = some s') :
+    rproj s' = rproj s := by
+  cases l <;> simp only [isRFrame, reduceCtorEq] at hl <;> simp only [step] at st <;>
+    (repeat' split at st) <;> (try simp only [Option.some.injEq, reduceCtorEq] at st) <;> (try subst st) <;>
+    (try contradiction) <;> simp_all [rproj, tick, mkEntry]
 
 end UrcuVerif.Src.DeferL
